@@ -464,3 +464,13 @@ theorem C14_history (cfg : Config) (rs : List Rec) (hr : cfg.reuse = false)
   refine C14_meets_spec_exact e.frames ?_ ?_
   · intro f hf; rw [h1] at hf; exact (a1 f hf).1
   · intro f hf; rw [h1] at hf; exact (a1 f hf).2
+
+/-- non-vacuity of `C14_history`: a history inside its hypotheses (a mapping, a fork, samples of parent and child)
+whose expected stacks carry no JS label frame -/
+example :
+    let rs : List Rec := [.comm 100 100 "app" false 1000, .mmap2 100 100 0x400000 0x2000 0 true "libfoo.so" 1100,
+      .fork 200 200 100 100 1200, .sample 200 200 1300 false 1 0x400100 [CTX_USER, 0x400100, 0x401000],
+      .sample 100 100 1400 false 1 0x400200 []]
+    Life.grammarOk 1000 rs = true ∧ hasCsRec rs = false ∧ noSpecial rs = true ∧ queuedOrdered rs = true ∧
+    (expectedSamples { ref := 1000 } rs).map (fun e => (e.frames.any isLabel, e.frames.length, e.nrec)) =
+      [(false, 2, 2), (false, 1, 1)] := by decide
